@@ -191,3 +191,9 @@ impl std::iter::Sum for Q {
         iter.fold(Q::int(0), |a, b| a + b)
     }
 }
+
+impl Default for Q {
+    fn default() -> Q {
+        Q::int(0)
+    }
+}
